@@ -4,4 +4,5 @@ pub mod framework;
 pub mod world;
 pub mod poolview;
 pub mod pool;
+pub mod farm;
 pub mod props;
